@@ -38,10 +38,10 @@ fn policies(concurrent: bool, thorough: bool) -> Vec<(String, Policy)> {
     v
 }
 
-struct Case {
-    id: String,
-    body: String,
-    concurrent: bool,
+pub struct Case {
+    pub id: String,
+    pub body: String,
+    pub concurrent: bool,
 }
 
 fn cases() -> Vec<Case> {
@@ -52,13 +52,13 @@ fn cases() -> Vec<Case> {
 
 // ───────────────────────────── composed programs with await points ─────────────────────────────
 
-const COMPOSED_SHARDS: u64 = 32;
+pub const COMPOSED_SHARDS: u64 = 32;
 
 /// One composed corpus program (loops, switch, try / finally, destructuring, classes,
 /// generators, closures ...) as the body of `async function main`, with a subset of its
 /// numeric literals read from the host instead: variant 0 = every site, variant 1 = every
 /// third site, variant 2 = one site chosen by the index.
-fn composed_case(shard: u64, index: u64, variant: u64) -> Option<Case> {
+pub fn composed_case(shard: u64, index: u64, variant: u64) -> Option<Case> {
     let p = crate::compose::generate("corpus-b", shard, index);
     let n = crate::compose::await_sites(&p.marked);
     if n == 0 {
